@@ -50,6 +50,7 @@ type Engine struct {
 	extraTerms []*Term
 	symMode    int
 	propAll    map[string]bool
+	probesRan, probesBad []string
 	maybeNilRet map[string]bool // Nil variables of pointer results of external (value, error) functions
 	pendingFree map[string]Value
 	obls      []*Obligation
